@@ -56,6 +56,12 @@ def step (op : String) (gs : List (List Int)) : String :=
       let p : PairCfg := { cfNum := cn.toNat, cfDen := cd.toNat, accNum := an.toNat, accDen := ad.toNat, radii := [] }
       if ctorAccepts g p (isInt != 0) then okG [[numLow g cols.toNat p]] else "err ValueError"
     | none => "err BadOp"
+  -- `num_low_value gid cols | cfNum cfDen accNum accDen`: the width as a function of the VALUES alone (no constructor
+  -- guard: also for the unguarded base classes Random / Equispaced / Magic, whatever object carries the numbers)
+  | "num_low_value", [[gid, cols], [cn, cd, an, ad]] =>
+    match C04.genOf gid with
+    | some g => okG [[numLow g cols.toNat { cfNum := cn.toNat, cfDen := cd.toNat, accNum := an.toNat, accDen := ad.toNat, radii := [] }]]
+    | none => "err BadOp"
   -- `fl53 num den`: the binary64 nearest to num / den, and Python's round / int of it
   | "fl53", [[num, den]] =>
     let p := fl53 num.toNat den.toNat
